@@ -110,11 +110,12 @@ fn pieces(s: &str, k: u8) -> Vec<String> {
 fn streamer(c: &Content) -> Box<dyn lol_html::html_content::StreamingHandler + Send + 'static> {
     let ps = pieces(&c.s, c.stream);
     let t = ct(c);
+    let fail = c.fail_stream;
     Box::new(move |sink: &mut StreamingHandlerSink<'_>| -> HandlerResult {
         for p in &ps {
             sink.write_str(p, t);
         }
-        Ok(())
+        if fail { Err("stream failed".into()) } else { Ok(()) }
     })
 }
 
